@@ -1,6 +1,6 @@
 (* Model/Dispatch.v -- the single extracted entry point.  op numbers: <property>*100 + k *)
 From Coq Require Import ZArith List Bool.
-From B2Z Require Import Base.Prims Base.Sx Model.Partitions Model.IndexParse Model.BinArith Model.Schema Model.Overlap Model.Icf.
+From B2Z Require Import Base.Prims Base.Sx Model.Partitions Model.IndexParse Model.BinArith Model.Schema Model.Overlap Model.Icf Model.RegionIndex.
 Import ListNotations.
 Open Scope Z_scope.
 
@@ -161,6 +161,19 @@ Definition d_C08 (k : Z) (arg : sx) : sx :=
   | _, _ => err_sx 2
   end.
 
+(* ---- C12 ---- *)
+Definition un_rec (s : sx) : option rec := match s with L [A c; A p; A l] => Some (c, p, l) | _ => None end.
+Definition d_C12 (k : Z) (arg : sx) : sx :=
+  match k, arg with
+  | 0, L [A cs; recs] => match un_list un_rec recs with
+                         | Some rs => L [of_ZLL (create_index (Z.to_nat cs) rs); of_ZLL (spec_index (Z.to_nat cs) rs)]
+                         | None => err_sx 1 end
+  | 1, L [A cs; recs; rows] => match un_list un_rec recs, as_ZLL rows with
+                         | Some rs, Some rw => of_bool (check_C12 (Z.to_nat cs) rs rw)
+                         | _, _ => err_sx 1 end
+  | _, _ => err_sx 2
+  end.
+
 Definition dispatch (op : Z) (arg : sx) : sx :=
   let p := op / 100 in
   let k := op mod 100 in
@@ -169,6 +182,7 @@ Definition dispatch (op : Z) (arg : sx) : sx :=
   | 8 => d_C08 k arg
   | 9 => d_C09 k arg
   | 10 => d_C10 k arg
+  | 12 => d_C12 k arg
   | 13 => d_C13 k arg
   | _ => err_sx 3
   end.
